@@ -148,7 +148,8 @@ def get_backend_types_from_mro(_cls: Type) -> Optional[BackendTypes]:
     try:
         return get_backend_types(_get_fullname(_cls))
     except BackendNotFoundError:
-        for base_cls in _cls.__bases__:
+        # e.g. DatetimeIndex derives from Index through intermediate classes
+        for base_cls in _cls.__mro__[1:]:
             try:
                 return get_backend_types(_get_fullname(base_cls))
             except BackendNotFoundError:
